@@ -964,6 +964,60 @@ impl<'ast, 'a> Visit<'ast> for RoCheck<'a> {
     }
 }
 
+// ===================== R23 (opt-in): `E.into_iter().any(|a| *a == X)` / `.all(..)` -> `vx_any_eq(E, X)` / `vx_all_eq(E, X)` =====================
+// membership / universality tests written with closure-taking iterator adapters (outside this Verus) become calls of two generic prelude
+// functions whose contract is their meaning (prelude/iter_any.rs). Only the exact shape is rewritten: receiver `.into_iter()` or `.iter()`,
+// one closure parameter, body `*p == X`, `p == X`, `X == *p` or `X == p`.
+struct AnyAllEq<'a> {
+    count: &'a mut usize,
+}
+impl<'a> VisitMut for AnyAllEq<'a> {
+    fn visit_expr_mut(&mut self, e: &mut syn::Expr) {
+        syn::visit_mut::visit_expr_mut(self, e);
+        let mut repl: Option<syn::Expr> = None;
+        if let syn::Expr::MethodCall(m) = e {
+            let which = m.method.to_string();
+            if (which == "any" || which == "all") && m.args.len() == 1 {
+                if let (syn::Expr::MethodCall(inner), syn::Expr::Closure(c)) = (&*m.receiver, &m.args[0]) {
+                    let im = inner.method.to_string();
+                    if (im == "into_iter" || im == "iter") && inner.args.is_empty() && c.inputs.len() == 1 {
+                        let pname = match &c.inputs[0] {
+                            syn::Pat::Ident(pi) => Some(pi.ident.to_string()),
+                            syn::Pat::Type(pt) => match &*pt.pat { syn::Pat::Ident(pi) => Some(pi.ident.to_string()), _ => None },
+                            _ => None,
+                        };
+                        if let (Some(pn), syn::Expr::Binary(b)) = (pname, &*c.body) {
+                            if matches!(b.op, syn::BinOp::Eq(_)) {
+                                let is_p = |x: &syn::Expr| -> bool {
+                                    let t = x.to_token_stream().to_string().replace(' ', "");
+                                    t == pn || t == format!("*{}", pn)
+                                };
+                                let other = if is_p(&b.left) { Some(&b.right) } else if is_p(&b.right) { Some(&b.left) } else { None };
+                                if let Some(x) = other {
+                                    let xs = x.to_token_stream().to_string();
+                                    // the compared value must not mention the closure parameter
+                                    let mut ids = std::collections::BTreeSet::new();
+                                    ts_var_idents(x.to_token_stream(), &mut ids);
+                                    if !ids.contains(&pn) {
+                                        let f = quote::format_ident!("{}", if which == "any" { "vx_any_eq" } else { "vx_all_eq" });
+                                        let recv = &inner.receiver;
+                                        let xe: syn::Expr = syn::parse_str(&xs).unwrap();
+                                        repl = Some(syn::parse_quote!(#f(#recv, #xe)));
+                                    }
+                                }
+                            }
+                        }
+                    }
+                }
+            }
+        }
+        if let Some(r) = repl {
+            *e = r;
+            *self.count += 1;
+        }
+    }
+}
+
 struct TxFinder {
     found: Vec<syn::ExprClosure>,
 }
@@ -1665,6 +1719,15 @@ fn emit_fn(ctx: &mut Ctx, d: &FnDir, out: &mut String) {
         }
     }
 
+    // ---- R23 (opt-in)
+    if d.opts.contains_key("r23") {
+        let mut n = 0usize;
+        AnyAllEq { count: &mut n }.visit_block_mut(&mut block);
+        if n == 0 {
+            die(&format!("lost anchor: r23 finds no `.into_iter().any/all(|p| *p == X)` in {}", d.path));
+        }
+        region_notes.push(format!("[R23] {} iterator any/all equality test(s) rewritten to vx_any_eq / vx_all_eq", n));
+    }
     // ---- R16 (opt-in)
     if d.opts.contains_key("r16") {
         ForEachLoop { stats: &mut stats }.visit_block_mut(&mut block);
